@@ -280,6 +280,8 @@ mut("revert-D7-lone-dash-skipped", OPT, '''		case arg == "-" || arg == "--":
 # ---- controls: behaviour changes that no property forbids; nothing may fire
 mut("control-help-layout", CMD, "tabwriter.NewWriter(stdErr, 15, 1, 3, ' ', 0)", "tabwriter.NewWriter(stdErr, 24, 1, 4, ' ', 0)", [], "column widths of the help change", quiet=["C17", "C14", "C07", "C16"])
 mut("control-error-wording", FSM, 'fmt.Errorf("incorrect usage")', 'fmt.Errorf("wrong usage, see below")', [], "wording of the usage error changes", quiet=["C07", "C04", "C13", "C14"])
+mut("control-error-prefix", CMD, 'fmt.Fprintf(stdErr, "Error: %s\\n", err.Error())', 'fmt.Fprintf(stdErr, "error - %s\\n", err.Error())', [], "prefix of the error line changes", quiet=["C07", "C04", "C13", "C14", "C17"])
+mut("control-help-indent", CMD, 'fmt.Fprintf(w, "  %s\\t%s\\n", s1, strings.TrimSpace(lines[0]))', 'fmt.Fprintf(w, "    %s\\t%s\\n", s1, strings.TrimSpace(lines[0]))', [], "rows of the help are indented by four blanks instead of two", quiet=["C17", "C14", "C16"])
 mut("control-derivation-order", ARG, '''func (*arg) Priority() int {
 	return 8
 }''', '''func (*arg) Priority() int {
